@@ -65,6 +65,15 @@ CHECKS["C09"] = dict(cat="other", technique="symbolic abstract interpretation of
     note="Trusted: rustc MIR construction; the symbolic interpreter's models of iterator adaptors, array::from_fn/map and Into/From wrappers. Not decided: the Gauss-Jordan inverse (branches on float magnitudes), conditioning, every float rounding effect.",
     ref="§8.7 C09")
 
+CHECKS["C08"] = dict(cat="other", technique="symbolic abstract interpretation of perspective/orthographic/viewport on symbolic parameters; rational-function identities; sign by non-negativity certificate; structural rules for the camera",
+    text="Decides the algebraic clauses over the reals for all valid parameters: perspective puts view z into clip w, sends the near plane to z_c = -w and the far plane to z_c = +w, scales x and y by fr and fr*ar, and is depth-monotone (slope coefficient 2fn/(n-f) < 0 by certificate); orthographic sends the box corners to (-1,-1,-1) and (1,1,1) with w = 1; viewport sends NDC (-1,-1) and (1,1) to the rectangle's corners and passes depth through; Camera::world_to_project is world_to_view.then(project), Camera::viewport is built from the request intersected with the frame on every path, Camera::perspective uses its own aspect ratio.",
+    note="Trusted: rustc MIR construction, the symbolic interpreter's std models. Not decided: float rounding, pixel-exact pinhole geometry, the first-person camera's rigid motion (trigonometric values), disjoint viewport rectangles.",
+    ref="§8.7 C08")
+CHECKS["C18"] = dict(cat="other", technique="symbolic abstract interpretation with trigonometric functions as opaque function symbols; rational identities; constant-table check",
+    text="Decides the algebraic/structural clauses: unit round trips rads/degs/turns are identities and the compile-time unit constants agree (360*RADS_PER_DEG = RADS_PER_TURN = 2pi to f32 precision); +, -, unary -, *f32, /f32, min, max act on the magnitude; wrap(a, lo, hi) = lo + rem_euclid(a-lo, hi-lo); polar/spherical <-> Cartesian conversions are exactly (r cos az, r sin az), (len, atan2(y, x)), r(cos az cos alt, sin alt, sin az cos alt), (len, atan2(z, x), atan2(y, sqrt(x^2+z^2))); sin_cos = (sin, cos).",
+    note="Trusted: rem_euclid's contract; rustc MIR/const evaluation. Not decided: accuracy and ranges of the trigonometric functions, behaviour at zero vectors.",
+    ref="§8.7 C18")
+
 NA = {}
 
 
